@@ -1719,6 +1719,15 @@ func stepCandidate(r *raft, m *pb.Message) error {
 		case quorum.VoteWon:
 			if r.state == StatePreCandidate {
 				r.campaign(campaignElection)
+			} else if _, ok := r.trk.Votes[r.id]; !ok {
+				// The vote this node cast for itself is delivered back to it only
+				// once the HardState carrying the new term and vote is durable. Until
+				// then the candidacy must not turn into leadership, even if the other
+				// voters already form a quorum: a leader that crashes before its own
+				// term is on disk would restart in the old term and could be elected
+				// (by the very same voters) to lead this term a second time. The
+				// tally runs again when the own vote arrives.
+				r.logger.Infof("%x has a vote quorum at term %d but its own vote is not durable yet; waiting", r.id, r.Term)
 			} else {
 				r.becomeLeader()
 				r.bcastAppend()
